@@ -552,6 +552,11 @@ func (e *Exec) callFunction(fn *ssa.Function, args []Value, bind []Value, caller
 	if intr, ok := intrinsics[fn.String()]; ok {
 		return intr(e, fn, args, caller)
 	}
+	if e.h != nil && e.h.Summaries != nil && !e.initMode {
+		if kind, ok := e.h.Summaries[fn.String()]; ok {
+			return e.summary(kind, fn, args)
+		}
+	}
 	if e.initMode && caller != nil && fn.Name() == "init" && fn.Synthetic != "" {
 		return nil, nil // nested package initialisers are run explicitly in dependency order
 	}
